@@ -2189,3 +2189,70 @@ func init() {
 		}),
 	)
 }
+
+func init() {
+	extend("C24", "R24g (added after a seeded change was missed): in SkipList.Delete the node is unlinked at every level before the list's level is lowered — no forward pointer is rewritten after the level has been decremented (a level dropped first keeps a stale pointer to the removed node).",
+		rule("R24g", "Delete unlinks at every level before it lowers the level", 1, func(r *Run) {
+			f := r.Fn(skl + "Delete")
+			if f == nil {
+				return
+			}
+			c := f.Ctx()
+			g := f.Graph()
+			isLevelDec := func(n *core.GNode) bool {
+				switch s := n.Ast.(type) {
+				case *ast.IncDecStmt:
+					return s.Tok == token.DEC && core.IsObj(skp+"SkipList.level")(c, s.X)
+				case *ast.AssignStmt:
+					for _, l := range s.Lhs {
+						if core.IsObj(skp+"SkipList.level")(c, l) {
+							return true
+						}
+					}
+				}
+				return false
+			}
+			isNextStore := func(n *core.GNode) bool {
+				as, ok := n.Ast.(*ast.AssignStmt)
+				if !ok {
+					return false
+				}
+				for _, l := range as.Lhs {
+					if ix, ok := ast.Unparen(l).(*ast.IndexExpr); ok && core.Mentions(skp+"skipListNode.next")(c, ix.X) {
+						return true
+					}
+				}
+				return false
+			}
+			var decs []*core.GNode
+			stores := 0
+			for _, n := range g.Nodes {
+				if n.Ast == nil {
+					continue
+				}
+				if isLevelDec(n) {
+					decs = append(decs, n)
+				}
+				if isNextStore(n) {
+					stores++
+				}
+			}
+			label := f.Name + ": no forward pointer is rewritten after the level was lowered"
+			if len(decs) == 0 || stores == 0 {
+				r.Fail(label, r.W.Pos(f.Node().Pos()), fmt.Sprintf("expected a level decrement and forward-pointer stores, found %d and %d", len(decs), stores))
+				return
+			}
+			bad := ""
+			for m := range g.Reachable(decs, nil, nil) {
+				if m.Ast != nil && isNextStore(m) {
+					bad = r.W.Pos(m.Ast.Pos())
+				}
+			}
+			if bad == "" {
+				r.OK(label, r.W.Pos(decs[0].Ast.Pos()), fmt.Sprintf("%d unlink store(s), all before the level adjustment", stores))
+			} else {
+				r.Fail(label, bad, "a forward pointer is rewritten after sl.level was decremented: the unlink loop no longer visits the dropped levels, whose header pointers keep pointing at the removed node")
+			}
+		}),
+	)
+}
